@@ -1095,8 +1095,45 @@ def cond_strategy():
         else:
           pairs[i][1] = draw(st.sampled_from(['nope', -12345.5, True]))
     return {'space': spec, 'touch': None,
+            'staged': draw(st.booleans()),
             'assignment': [[n, orc.enc(v)] for n, v in pairs], 'mode': mode}
   return case()
+
+
+def _build_staged(out, spec):
+  """Builds the top level first, queries it while it is still flat, then
+  attaches the children through selectors on the same object (the order in
+  which a user grows a conditional space)."""
+  from harness import spaces
+  from vizier import pyvizier as vz
+  try:
+    space = vz.SearchSpace()
+    for p in spec['params']:
+      spaces.add_param(vz, space.root, p)
+    # membership / conditionality asked while the space is still flat
+    _ = space.is_conditional
+    try:
+      space.contains(vz.ParameterDict())
+    except NotImplementedError:
+      out.violate('cond/flat_stage_refused',
+                  'contains() raised NotImplementedError on a flat space')
+
+    def rec(selector, params):
+      for p in params:
+        for ch in p.get('children', ()):
+          pvals = ch['parent_values']
+          if p['kind'] == 'BOOL':
+            pvals = ['True' if v else 'False' for v in pvals]
+          sub = selector.select(p['name'], pvals)
+          for c in ch['params']:
+            spaces.add_param(vz, sub, c)
+          rec(sub, ch['params'])
+    rec(space.root, spec['params'])
+    return space
+  except Exception as e:  # pylint: disable=broad-except
+    out.violate('build/valid_space_rejected/staged/%s' % _exc_key(e),
+                'staged building of %r raised %r' % (spec, e))
+    return None
 
 
 def check_cond(case):
@@ -1105,7 +1142,11 @@ def check_cond(case):
   out = core.Out()
   spec = case['space']
   pairs = [[n, orc.dec(v)] for n, v in case['assignment']]
-  space = _build(out, spec)
+  if case.get('staged') and spaces.is_conditional(spec):
+    space = _build_staged(out, spec)
+    out.cls('staged_build')
+  else:
+    space = _build(out, spec)
   if space is None:
     return out
   if case.get('touch'):
@@ -1326,7 +1367,11 @@ def add_trial_strategy():
     for _ in range(draw(st.integers(1, 4))):
       pairs, _ = draw(_assignment(spec))
       trials.append(pairs)
-    return {'space': spec, 'trials': trials}
+    # the trial object's own status must not matter for the membership check
+    return {'space': spec, 'trials': trials,
+            'status': draw(st.lists(st.sampled_from(
+                ['active', 'requested', 'completed']), min_size=4,
+                                    max_size=4))}
   return case()
 
 
@@ -1351,11 +1396,17 @@ def check_add_trial(case):
     study = clients.Study(client)
     stored = 0
     n_mem = n_non = 0
-    for pairs in case['trials']:
+    for ti, pairs in enumerate(case['trials']):
       pairs = [[n, orc.dec(v)] for n, v in pairs]
       assignment = dict(pairs)
       why = None if conditional else orc.reason(spec, assignment)
       trial = vz.Trial(parameters=_pd(vz, pairs))
+      status = (case.get('status') or ['active'] * 4)[ti % 4]
+      if status == 'requested':
+        trial.is_requested = True
+      elif status == 'completed':
+        trial.complete(vz.Measurement({'m': 1.0}))
+      out.cls('trial_status_' + status)
       err = None
       res = None
       try:
@@ -1454,6 +1505,7 @@ def families(tier):
           budget={'quick': 1200, 'thorough': 15000},
           shards={'quick': 4, 'thorough': 8},
           required_classes=('conditional', 'flat', 'empty_subspace_selected',
+                            'staged_build',
                             'depth_2', 'depth_3', 'first_param_childless')),
       core.Family(
           'walk', check_walk, strategy=walk_strategy,
